@@ -252,7 +252,8 @@ pub fn circuit_bootstrap_core<R, L, D, M, BRA: BlindRotationAlgo, BE: Backend>(
 
     assert_eq!(res.n(), key.brk.n());
 
-    let res_base2k: usize = res.base2k().as_usize();
+    // One GGSW row spans `dsize` limbs: the gadget of row i sits at 2^{-(i + 1) * dsize * base2k}.
+    let res_base2k: usize = res.base2k().as_usize() * res.dsize().as_usize();
     let dnum_res: usize = res.dnum().into();
 
     let alpha: usize = dnum_res.next_power_of_two();
